@@ -121,6 +121,13 @@ def build(template_path, repo=None):
                 if ob < 0:
                     raise stage.LostAnchor("%s: no body after %r" % (u.name, lit))
                 cb = _match_brace(src, ob)
+                if mode == "block":
+                    # an `if .. {..} else {..}` / `else if` chain belongs to one statement
+                    while True:
+                        m2 = re.match(r"\s*else\b[^{;]*\{", src[cb + 1:])
+                        if not m2:
+                            break
+                        cb = _match_brace(src, cb + 1 + m2.end() - 1)
                 body = src[ob + 1:cb] if mode == "body" else src[sum(len(l) for l in lines[:a]):cb + 1] + "\n"
                 l0 = src.count("\n", 0, ob) + 1
                 l1 = src.count("\n", 0, cb) + 1
